@@ -363,13 +363,13 @@ class VmControlData(TlbScheme):
     def serialize(cls, value: "VmControlData") -> Cell:
         builder = Builder()
 
-        if value.nargs:
+        if getattr(value, 'nargs', None) is not None:  # nargs = 0 is a value, not an absent field
             builder.store_bit_int(1)
             builder.store_uint(value.nargs, 13)
         else:
             builder.store_bit_int(0)
 
-        if value.stack:
+        if getattr(value, 'stack', None) is not None:
             builder.store_bit_int(1)
             builder.store_cell(value.stack)
         else:
@@ -377,7 +377,7 @@ class VmControlData(TlbScheme):
 
         builder.store_cell(VmSaveList.serialize(value.save))
 
-        if value.cp:
+        if getattr(value, 'cp', None) is not None:  # cp = 0 is a value, not an absent field
             builder.store_bit_int(1)
             builder.store_int(value.cp, 16)
         else:
